@@ -121,3 +121,14 @@ package components
 //@   loop 0 invariant stable: p == old(p) && scan != nil && p.outParamPorts == old(p.outParamPorts) && p.outParamPorts["line"] == old(p.outParamPorts["line"]) && wfSrcParamOut(p.BaseProcess, "line") && err == nil && openedName(file) == old(p.filePath) && scannerSource(scan) == file
 //@   loop 0 invariant pos: 0 <= scanPos[scan] && scanPos[scan] <= scanTotal(scan)
 //@   loop 0 invariant so-far: poutN[p.outParamPorts["line"]] == old(poutN[p.outParamPorts["line"]]) + scanPos[scan] && (forall j int :: 0 <= j && j < scanPos[scan] ==> poutAt[p.outParamPorts["line"]][old(poutN[p.outParamPorts["line"]]) + j] == scanLine(scan, j))
+
+//@ func (*CommandToParams).Run(p)
+//@   props C19
+//@   requires wf: wfSrcParamOut(p.BaseProcess, "param")
+//@   modifies *
+//@   atcall (*os/exec.Cmd).CombinedOutput runs-the-configured-command[C19]: cmdArg($arg0, 1) == p.command
+//@   atreturn scans-the-output-of-the-command[C19]: err == nil && readerOf(scannerSource(scanner)) == out
+//@   atreturn emits-every-line-read-in-order[C19]: poutN[old(p.outParamPorts["param"])] == old(poutN[p.outParamPorts["param"]]) + scanTotal(scanner) && (forall j int :: 0 <= j && j < scanTotal(scanner) ==> poutAt[old(p.outParamPorts["param"])][old(poutN[p.outParamPorts["param"]]) + j] == scanLine(scanner, j))
+//@   loop 0 invariant stable: p == old(p) && scanner != nil && p.outParamPorts == old(p.outParamPorts) && p.outParamPorts["param"] == old(p.outParamPorts["param"]) && wfSrcParamOut(p.BaseProcess, "param") && err == nil && readerOf(scannerSource(scanner)) == out
+//@   loop 0 invariant pos: 0 <= scanPos[scanner] && scanPos[scanner] <= scanTotal(scanner)
+//@   loop 0 invariant so-far: poutN[p.outParamPorts["param"]] == old(poutN[p.outParamPorts["param"]]) + scanPos[scanner] && (forall j int :: 0 <= j && j < scanPos[scanner] ==> poutAt[p.outParamPorts["param"]][old(poutN[p.outParamPorts["param"]]) + j] == scanLine(scanner, j))
